@@ -12,8 +12,9 @@ CHECKS = {
         "model_checking",
         "Every PDB 'edit program' of bounded length (all <=2-edit programs in "
         "quick, <=3 insert edits in thorough) over a bookkeeping/blank/"
-        "unknown-line, line-ending, truncation, alt-loc and renumbering "
-        "alphabet is applied to small base files in five model layouts and "
+        "unknown-line, line-ending, truncation, alt-loc, alias-name and "
+        "renumbering alphabet is applied to five small base files in five "
+        "model layouts and "
         "run through the real reader and Biomolecule constructor (and end to "
         "end through main_driver --clean, with and without --drop-water); "
         "the ingested atom set must equal an independent column-slicing "
@@ -139,7 +140,7 @@ CHECKS = {
         "formatter and main.print_pqr, read back by an independent fixed-"
         "column parser, an independent tokeniser and io.read_pqr; every "
         "field must equal the model; plus end-to-end runs with extreme "
-        "numbering/offsets.",
+        "numbering/offsets (normal and --clean branch).",
         "Fixed columns per the PDB-compatible layout, tokens per pqr.rst.",
         "exhaustive enumeration of field-value products through the real "
         "serialiser and readers",
@@ -197,8 +198,10 @@ CHECKS = {
         "Success grid (33 input names x 3 positions x 6 force fields with a "
         "near and an isolated water, strands for nucleic force fields, chains "
         "ending in waters/ions, chain layouts, ring + linear chain, "
-        "multi-instance structures) must complete; failure side: 10 argument "
-        "classes, 11 input classes, and an injected fault at each of 26 "
+        "multi-instance structures, alias spellings of atoms / waters / "
+        "nucleotides) must complete; failure side: 10 argument "
+        "classes, 11 input classes + a 14 x 5 lattice of non-integral "
+        "totals, and an injected fault at each of 26 "
         "pipeline call sites x call occurrence {first, second, last} x 4 "
         "exception types x output path {absent, pre-existing sentinel}; "
         "output-path state machine: a failing run leaves absent->absent / "
@@ -230,7 +233,8 @@ CHECKS = {
         "different real histories whose concrete cell maps must agree, "
         "query invariant after every transition (10k states / 778k "
         "transitions quick); (3) every neighbour query of real pipeline runs "
-        "compared with brute force, cell map audited for stale/ghost entries "
+        "compared with brute force over all live atoms (unfiled ones "
+        "included), cell map audited for stale/ghost entries "
         "after every optimiser step.",
         "Operations follow the cell list's protocol; (3) detects protocol "
         "breaches by the pipeline.",
